@@ -382,6 +382,12 @@ class ResponseViews(Scenario):
                             vio("www_authenticate/attribute-readback-wrong/attr=parameters", f"view.parameters = {{{key!r}: {val!r}}} reads back {dict(v.parameters)!r}")
                     elif what == "params_inner":
                         v.parameters[key] = val
+                        # read - modify - write back through the very same object
+                        held = v.parameters
+                        want = dict(held)
+                        v.parameters = held
+                        if dict(v.parameters) != want:
+                            vio("www_authenticate/attribute-readback-wrong/attr=parameters-written-back", f"parameters {want!r} assigned back to the view read {dict(v.parameters)!r}")
                     elif what == "assign":
                         if len(val) % 2:
                             resp.www_authenticate = ds.WWWAuthenticate(typ.lower(), {key: val})
